@@ -362,3 +362,19 @@ package stake
 //@   assert@call(selectValidators,0): $arg0 == ctrler.allDelegatees && $arg1 == maxVals                        [C10]
 //@   assert@call(validatorUpdates,0): $arg0 == ctrler.lastValidators && $arg1 == newValidators                [C10]
 //@   assert@store(StakeCtrler.lastValidators,0): $target == ctrler && $value == newValidators                 [C10]
+
+// ---- queries (C19, C06): the state read is the one committed at the requested height, through a fresh
+// historical view; no overlay, ledger or controller state is written
+//@ func (ctrler *StakeCtrler) Query(req)
+//@   objinv ctrler != nil && ctrler.delegateeLedger != nil && ctrler.rewardLedger != nil && ctrler.govParams != nil
+//@   assumes !cons_ok
+//@   modifies everything
+//@   preserves allmaps(memItems.gotItems), allmaps(memItems.updatedItems), memItems.*, allelems(memItems.removedKeys), FinalityLedger.*, SimpleLedger.*, MemLedger.*, StakeCtrler.*, GovCtrler.*, AcctCtrler.*, GovParams.*, cons_ok, deadobj
+//@   assert@call(ImmutableLedgerAt,0): $arg0 == req.Height && $target == ctrler.rewardLedger                  [C19]
+//@   assert@call(ImmutableLedgerAt,1): $arg0 == req.Height && $target == ctrler.delegateeLedger               [C19]
+//@   assert@call(ImmutableLedgerAt,2): $arg0 == req.Height && $target == ctrler.delegateeLedger               [C19]
+//@   assert@call(ImmutableLedgerAt,3): $arg0 == req.Height && $target == ctrler.delegateeLedger               [C19]
+//@   assert@call(ImmutableLedgerAt,4): $arg0 == req.Height && $target == ctrler.delegateeLedger               [C19]
+//@   assert@call(Read,0): immuheight[$target] == req.Height && $arg0 == lkey(content(req.Data))               [C19]
+//@   assert@call(Read,1): immuheight[$target] == req.Height && $arg0 == lkey(content(req.Data))               [C19]
+//@   loop 0: invariant true
